@@ -813,6 +813,24 @@ def _surface(M, spec, rep: Report):
                 out.append(("laplacian_edges.connection_modulus", "mismatch:entry_modulus", bad))
     cx.sweep("laplacian_edges", {"connection": ["none", "SurfaceConnectionEdges"], "cotan": [True, False], "order": orders}, f_le)
 
+    # ---- the same operator asked again at the end (every cache and persistent attribute now exists on the mesh) must
+    # be the matrix it was when asked first: the uniform Laplacian of a fresh twin mesh is the reference
+    _w = F.WARM[0]
+    F.WARM[0] = False          # the twin is fresh also in the warm-blackboard variant of the task
+    try:
+        twin = F.build_surface(pts, faces)
+    finally:
+        F.WARM[0] = _w
+    o_first = call(M.operators.laplacian, twin, cotan=False)
+    o_last = call(M.operators.laplacian, m, cotan=False)
+    rep.evaluations += 1
+    if o_first.ok and o_last.ok:
+        bad = _cmp(_dense(o_last.value), _dense(o_first.value))
+        if bad:
+            cx.single("laplacian", "laplacian.same_on_fresh_and_used_mesh", "mismatch:entry", bad)
+    elif o_first.ok != o_last.ok:
+        cx.single("laplacian", "laplacian.same_on_fresh_and_used_mesh", "mismatch:raises_only_on_one", {"fresh": repr(o_first), "used": repr(o_last)})
+
 
 # ================================================================================================ volumes
 def _volume(M, spec, rep: Report):
